@@ -1,6 +1,6 @@
 (* E3 Algebra engine -- the executable form of C09 (Model.C09_holds_b, what the
    correspondence check evaluates on the implementation's outputs) is satisfied by the model
-   on EVERY case outside the two recorded exception classes (linearity; float semirings):
+   on EVERY case outside the recorded exception classes (float semirings; release-profile Cost):
    all item lists, all operation tables, all arities, all semiring values. *)
 From Coq Require Import List Bool NArith ZArith Arith Lia Floats.
 From HV Require Import Algebra.Model Algebra.PBasic Algebra.PPower Algebra.PCheckers Algebra.PSemiring.
@@ -84,12 +84,10 @@ Proof.
   - apply list_eqb_refl. intros; apply N.eqb_refl.
 Qed.
 
-(* the cases covered: everything except the `linearity` checker (argument-order finding) and
-   the two floating-point semirings (ConfidenceScore: refuted; FuzzyLogic: proved in PFuzzy.v
+(* the cases covered: everything except the two floating-point semirings (ConfidenceScore: refuted; FuzzyLogic: proved in PFuzzy.v
    up to IEEE `==`, whereas C09_holds_b compares bit patterns) *)
 Definition in_scope (c : acase) : Prop :=
   match c with
-  | CLinearity _ _ _ _ => False
   | CSr t _ _ _ => exact_ty t
   | CSrRel _ _ _ _ => False      (* release-profile Cost: refuted, PSemiring.cost_release_not_semiring *)
   | _ => True
@@ -107,13 +105,13 @@ Proof.
                 | apply nonzero_inverse_ok | apply left_distributes_ok | apply right_distributes_ok
                 | apply distributive_ok | apply semiring_ok | apply ring_ok
                 | apply commutative_ring_ok | apply integral_domain_ok | apply field_ok
-                | apply bilinearity_ok]
+                | apply bilinearity_ok | apply linearity_ok]
          |first [apply assoc_b_spec | apply comm_b_spec | apply idem_b_spec
                 | apply ident_b_spec | apply absorb_b_spec | apply monoid_b_spec
                 | apply cmonoid_b_spec | apply nzd_b_spec | apply inv_b_spec | apply group_b_spec
                 | apply abgroup_b_spec | apply nzinv_b_spec | apply ldist_b_spec | apply rdist_b_spec
                 | apply dist_b_spec | apply semiring_b_spec | apply ring_b_spec | apply cring_b_spec
-                | apply idom_b_spec | apply field_b_spec | apply bilinear_b_spec]]; fail).
+                | apply idom_b_spec | apply field_b_spec | apply bilinear_b_spec | apply linear_b_spec]]; fail).
   - (* props *)
     pose proof (single_function_properties_spec N.eqb items (top f) e (vop b) z) as S.
     cbv zeta in S. destruct S as (S1 & S2 & S3 & S4 & S5 & S6 & S7).
